@@ -201,6 +201,7 @@ class Unit:
                     continue
                 stack.extend(ast.iter_child_nodes(x))
             res['want_lines'] = sorted(want - self.unreachable_ok_lines(fn))
+            res['stale_unreachable_ok'] = list(self.stale_unreachable_ok)
             res['reached_lines'] = sorted(ex.reached)
         res['ignored'] = sorted(set(ex.ignored))
         return res
@@ -211,15 +212,22 @@ class Unit:
 
     def unreachable_ok_lines(self, fn):
         out = set()
+        self.stale_unreachable_ok = []
         if not self.unreachable_ok:
             return out
+        hit = set()
         for x in ast.walk(fn):
             if isinstance(x, ast.stmt):
                 src = ast.unparse(x)
-                if any(src.startswith(frag) for frag in self.unreachable_ok):
-                    for y in ast.walk(x):
-                        if isinstance(y, ast.stmt):
-                            out.add(y.lineno)
+                for frag in self.unreachable_ok:
+                    if src.startswith(frag):
+                        hit.add(frag)
+                        for y in ast.walk(x):
+                            if isinstance(y, ast.stmt):
+                                out.add(y.lineno)
+        # fragments that match no statement of the CURRENT text: the declaration was written against another shape of the function
+        # (e.g. a local was renamed); uncovered statements are then a binding problem of the contract, not dead code
+        self.stale_unreachable_ok = [f for f in self.unreachable_ok if f not in hit]
         return out
 
     def exit_covers(self, ex, outs):
